@@ -1,6 +1,8 @@
 pub mod c04;
 pub mod c05;
+#[macro_use]
 pub mod c14;
+pub mod c10;
 pub mod c16;
 pub mod hist;
 
